@@ -27,6 +27,11 @@ def plan(prop, tier):
             J.append((fam, "pre1", ["scenarios=%d" % ((8 if q else 40) // (2 if big else 1)), "threads=2", "opsper=%d" % (1 if big else 2)] + sc))
             if not big:
                 J.append((fam, "pct", ["scenarios=%d" % (12 if q else 60), "runs=%d" % (10 if q else 30), "threads=3", "opsper=2"] + sc))
+        # directed scenarios: reader = scan that ends inside a node (limited / bounded / right-to-left), writer = remove + insert that reuses
+        # the freed slot, remove + re-insert, insert + remove; every single preemption
+        for fam in ["border", "full", "two", "layer"]:
+            J.append((fam, "pre1", ["scenarios=%d" % (10 if q else 40), "threads=2", "opsper=2", "scans=100", "directed=1"]))
+            J.append((fam, "pct", ["scenarios=%d" % (10 if q else 40), "runs=%d" % (15 if q else 40), "threads=2", "opsper=2", "scans=100", "directed=1"]))
     elif prop == "C13c":
         J.append(("ddl", "random", ["scenarios=%d" % (60 if q else 300), "runs=%d" % (20 if q else 40), "threads=2", "opsper=2"]))
         J.append(("ddl", "pre1", ["scenarios=%d" % (20 if q else 100), "threads=2", "opsper=2"]))
@@ -54,8 +59,8 @@ def run_conc(chk, prop, tier, pkey=None):
     pk = pkey or prop
     base, jobs = plan(pk, tier)
     nviol = 0
-    for fam, sched, extra in jobs:
-        tag = "%s_%s_%s" % (pk, fam, sched)
+    for ji, (fam, sched, extra) in enumerate(jobs):
+        tag = "%s_%s_%s_%d" % (pk, fam, sched, ji)
         tr, runs, aborts, fault = lincheck.drive(chk, base + ["family=" + fam, "sched=" + sched] + extra, tag)
         chk.cov["runs"] = chk.cov.get("runs", 0) + len(runs)
         chk.cov.setdefault("runs_by", {})["%s/%s" % (fam, sched)] = len(runs)
@@ -86,10 +91,61 @@ def run_conc(chk, prop, tier, pkey=None):
     return nviol
 
 
+MODEL_CFGS = {"C01": ["A", "B", "D"], "C04": ["C", "D"], "C06": ["C"], "C09": ["A", "B", "C", "D"], "C08c": ["B", "D"]}
+
+
+def run_model_and_steps(chk, prop, tier, pkey=None):
+    """M: exhaustive interleavings of YkConc (one root border; get / put / unique put / remove / scan at hook grain) for the fixed
+    programs of MC_Conc; S: the same programs on the real code under random schedules, every logged access must be the enabled
+    model step with the same value (TraceConc).  A step-level rejection is a divergence, not a violation."""
+    import os, re
+    from common import tlc, tlc_tail, build, run, BUILD
+    from tracecheck import write_cfg
+    pk = pkey or prop
+    progs = MODEL_CFGS.get(pk, [])
+    for pg in progs:
+        res = tlc("MC_Conc", "MC_Conc_%s.cfg" % pg, workers=8, timeout=900)
+        chk.add_tlc(res, "YkConc program %s: all interleavings (LinOK, ScanOK, Quiescent, Termination under WF)" % pg)
+        if not res.ok:
+            chk.error("YkConc model check %s did not pass (says nothing about the code): %s" % (pg, tlc_tail(res, 12)))
+    exe = build("stepdrv", ["stepdrv.cpp"], sessions=16)
+    init = {"A": "{1, 2}", "B": "{1, 2}", "C": "{1, 2}", "D": "{1}"}
+    nruns = 40 if tier == "quick" else 400
+    for pg in progs:
+        rc, out, err = run([exe, "prog=" + pg, "runs=%d" % nruns, "seed=%d" % seed()], timeout=300)
+        lines = out.splitlines()
+        if rc != 0 or any('"e":"abort"' in l for l in lines[-2:]):
+            chk.notes.append("stepdrv %s did not complete: %s" % (pg, (lines[-1] if lines else err)[:200]))
+            continue
+        if lines and '"op":"fault"' in lines[-1]:
+            chk.violation("fault", "implementation faulted in step-level run of program %s: %s" % (pg, lines[-1]), chk.save_replay("fault_step_%s.ndjson" % pg, "\n".join(lines[-30:])))
+            continue
+        tr = os.path.join(BUILD, "traces", "step_%s_%s.ndjson" % (pk, pg))
+        open(tr, "w").write(out)
+        cfg = write_cfg(os.path.join(BUILD, "cfg", "tc_%s_%s.cfg" % (pk, pg)), constants={"Threads": "{1, 2, 3}", "Keys": "{1, 2, 3}", "F": 15, "InitKeys": init[pg],
+                        "BUGGY_F1": "FALSE", "Prog": "<- Prog" + pg}, invariants=["LinOK", "ScanOK"], constraint="Record")
+        res = tlc("TraceConc", cfg, env={"TRACE": tr}, workers=1, timeout=600, deque=True)
+        chk.add_tlc(res, "step-level conformance program %s (%d runs, %d events)" % (pg, nruns, len(lines)))
+        if res.ok:
+            chk.traces += nruns
+            chk.cov["step_events_conforming"] = chk.cov.get("step_events_conforming", 0) + len(lines)
+        elif res.violated in ("LinOK", "ScanOK"):
+            # the model's own property fails on a state reached by following the real execution step by step
+            rp = chk.save_replay("step_%s_%s.txt" % (pg, res.violated), tlc_tail(res, 60))
+            chk.violation("step-trace-" + res.violated, "%s violated on a real execution of program %s followed step by step in YkConc" % (res.violated, pg), rp)
+        else:
+            m = re.search(r'<<"STUCK", (\d+)', res.out)
+            at = int(m.group(1)) if m else 0
+            chk.cov["divergences"] = chk.cov.get("divergences", 0) + 1
+            log("DIVERGENCE property=%s at=step-level program %s event %d: %s (the code's access sequence differs from YkConc; not a violation)" % (
+                prop, pg, at, lines[at - 1][:200] if 0 < at <= len(lines) else ""))
+
+
 def main(prop, tier):
     chk = Check(prop, tier)
     chk.assumptions += ["sequentially consistent executions only: one controlled thread runs at a time, preemption at the verification hooks (every atomic load/store/CAS of version, permutation, slot, link and root words)",
                         "exploration is bounded: seeded random / PCT schedules and every single preemption of 2-thread programs over 7 tree-shape families; 1-2 operations per thread",
                         "values carry their id in every word, so a torn or null value is recognisable"]
+    run_model_and_steps(chk, prop, tier)
     run_conc(chk, prop, tier)
     return chk.finish()
